@@ -95,6 +95,11 @@ class Unsupported(Exception):
     pass
 
 
+class RetryPath(Exception):
+    """the path must be executed again from the same decisions (the inferred loop frame grew)"""
+    pass
+
+
 class PathEnd(Exception):
     """path abandoned (loop body cut, infeasible, assumption false)"""
     pass
